@@ -25,7 +25,7 @@ func (e *ElectreIIIPreferenceFunc) Spec_MethodParameters() interface{} {
 
 func (e *ElectreIIIPreferenceFunc) Spec_Evaluate(dmp *DecisionMakingParams) *AlternativesRanking {
 	params := dmp.MethodParameters.(electreIIIParams)
-	return ElectreIII(dmp.ConsideredAlternatives, dmp.Criteria, params.Criteria, params.DistillationFun)
+	return Spec_ElectreIII(dmp.ConsideredAlternatives, dmp.Criteria, params.Criteria, params.DistillationFun)
 }
 
 func Spec_ElectreIII(
@@ -34,10 +34,10 @@ func Spec_ElectreIII(
 	electreCriteria *ElectreCriteria,
 	distillationFun *utils.LinearFunctionParameters,
 ) *AlternativesRanking {
-	matrix := evaluateCredibilityMatrix(&alternatives, &criteria, electreCriteria)
-	ascending := RankAscending(matrix, distillationFun)
-	descending := RankDescending(matrix, distillationFun)
-	return EvaluateRanking(ascending, descending, &alternatives)
+	matrix := Spec_evaluateCredibilityMatrix(&alternatives, &criteria, electreCriteria)
+	ascending := Spec_RankAscending(matrix, distillationFun)
+	descending := Spec_RankDescending(matrix, distillationFun)
+	return Spec_EvaluateRanking(ascending, descending, &alternatives)
 }
 
 func Spec_evaluateCredibilityMatrix(
@@ -51,7 +51,7 @@ func Spec_evaluateCredibilityMatrix(
 	for i, a1 := range *alternatives {
 		alternativesIds[i] = a1.Id
 		for j, a2 := range *alternatives {
-			credibilityFlatMatrix[i*alternativesNum+j] = evaluateAlternativesPair(i, j, &a1, &a2, criteria, electreCriteria)
+			credibilityFlatMatrix[i*alternativesNum+j] = Spec_evaluateAlternativesPair(i, j, &a1, &a2, criteria, electreCriteria)
 		}
 	}
 	return &AlternativesMatrix{&alternativesIds, &Matrix{
@@ -64,7 +64,7 @@ func Spec_evaluateAlternativesPair(i, j int, a1, a2 *AlternativeWithCriteria, cr
 	if i == j {
 		return 1
 	} else {
-		eleRes := electreIIICredibility(a1, a2, criteria, electreCriteria)
+		eleRes := Spec_electreIIICredibility(a1, a2, criteria, electreCriteria)
 		return eleRes.D
 	}
 }
@@ -76,10 +76,10 @@ func Spec_electreIIICredibility(
 ) *ElectreResult {
 	electreRes := make([]*electreIIISingleResult, len(*criteria))
 	for i, c := range *criteria {
-		electreRes[i] = evaluatePair(a1, a2, &c, criteriaThresholds)
+		electreRes[i] = Spec_evaluatePair(a1, a2, &c, criteriaThresholds)
 	}
-	c := calculateTotalC(&electreRes)
-	d := calculateCredibility(c, &electreRes)
+	c := Spec_calculateTotalC(&electreRes)
+	d := Spec_calculateCredibility(c, &electreRes)
 	return &ElectreResult{C: c, D: d}
 }
 
@@ -108,15 +108,15 @@ func Spec_evaluatePair(
 	c *Criterion,
 	criteriaThresholds *ElectreCriteria,
 ) *electreIIISingleResult {
-	c1Val := a1.CriterionValue(c)
-	c2Val := a2.CriterionValue(c)
+	c1Val := a1.Spec_CriterionValue(c)
+	c2Val := a2.Spec_CriterionValue(c)
 	ths, foundThreshold := (*criteriaThresholds)[c.Id]
 	if !foundThreshold {
 		panic(fmt.Errorf("properties for criterion '%s' not found", c.Id))
 	}
 	return &electreIIISingleResult{
 		criterion: &ths,
-		result:    calculateElectreResult(c1Val, c2Val, c, &ths),
+		result:    Spec_calculateElectreResult(c1Val, c2Val, c, &ths),
 	}
 }
 
@@ -124,17 +124,17 @@ func Spec_calculateElectreResult(c1Val, c2Val Weight, c *Criterion, ths *Electre
 	if c1Val >= c2Val {
 		return &ElectreResult{C: 1}
 	}
-	originalFirstCriterionValue := c1Val * Weight(c.Multiplier())
+	originalFirstCriterionValue := c1Val * Weight(c.Spec_Multiplier())
 	criteriaValueDifference := c2Val - c1Val
-	q, qok := ths.Q.Evaluate(originalFirstCriterionValue)
+	q, qok := ths.Q.Spec_Evaluate(originalFirstCriterionValue)
 	if qok && q >= criteriaValueDifference {
 		return &ElectreResult{C: 1}
 	}
-	p, pok := ths.P.Evaluate(originalFirstCriterionValue)
+	p, pok := ths.P.Spec_Evaluate(originalFirstCriterionValue)
 	if pok && p >= criteriaValueDifference {
 		return &ElectreResult{C: 1 - (criteriaValueDifference-q)/(p-q)}
 	}
-	v, vok := ths.V.Evaluate(originalFirstCriterionValue)
+	v, vok := ths.V.Spec_Evaluate(originalFirstCriterionValue)
 	if vok && v >= criteriaValueDifference {
 		return &ElectreResult{D: (criteriaValueDifference - p) / (v - p)}
 	}
